@@ -142,14 +142,15 @@ impl<'a> PrettyPrinter<'a> {
                 .position(|child| {
                     !matches!(child.kind(), SyntaxKind::LeftParen | SyntaxKind::Space)
                 })
-                .unwrap_or(0);
+                .unwrap_or(children.len());
             let j = children
                 .iter()
                 .rposition(|child| {
                     !matches!(child.kind(), SyntaxKind::RightParen | SyntaxKind::Space)
                 })
-                .unwrap_or(children.len().saturating_sub(1));
-            children[i..=j].iter()
+                .map_or(0, |j| j + 1);
+            // Nothing is left if there are only spaces between the parens.
+            children[i.min(j)..j].iter()
         };
         let ends_with_line_comment = children
             .as_slice()
